@@ -1875,13 +1875,19 @@ class Exec:
             raise ExtractionError(f'{self.unit}: range-for statement not understood (line {self.curline})')
         init = [c for c in rng.get('inner', []) if c.get('kind') and not c['kind'].endswith(('Attr', 'Comment', 'Decl'))]
         cont = self.ev_obj(init[0], st)
-        if not isinstance(cont, ObjRef) or class_kind(cont.cls) != 'vector':
+        if not isinstance(cont, ObjRef) or not (class_kind(cont.cls) == 'vector' or (class_kind(cont.cls) == 'stdarray' and cont.name in st.length)):
             raise ExtractionError(f'{self.unit}: range-for over {getattr(cont, "cls", cont)} not modelled (line {self.curline})')
         self.rangecount = getattr(self, 'rangecount', 0) + 1
         ip = f'ghost.range{self.rangecount}'
         LONG = parse_type_str('long')
         st.scal[ip] = IntV(I(0), LONG)
         ect = parse_type(lv['type'])
+        if ect.kind == 'class' and '::value_type' in ect.name:
+            # auto& over a container of scalars: the element type is the container's first template argument
+            import re as _re
+            m_ = _re.search(r'<\s*([^,<>]+?)\s*[,>]', strip_quals(cont.cls))
+            if m_:
+                ect = parse_type_str(m_.group(1))
         region = cont.name
 
         def cond_fn(s_):
